@@ -70,8 +70,11 @@ func newEther(x *Ctx) *ether {
 	return &ether{x: x, Delay: func() time.Duration { return 0 }}
 }
 
-func (e *ether) provider(node string, ip string) *etherProvider {
+func (e *ether) provider(node string, ip, ip6 string) *etherProvider {
 	p := &etherProvider{eth: e, node: node, ip: net.ParseIP(ip), wake: make(chan struct{}, 1), startedCh: make(chan struct{})}
+	if ip6 != "" {
+		p.ip6 = net.ParseIP(ip6)
+	}
 	e.mu.Lock()
 	e.provs = append(e.provs, p)
 	e.mu.Unlock()
@@ -566,10 +569,7 @@ func (n *hubNode) create() {
 			return
 		}
 	}
-	n.prov = n.rig.eth.provider(n.name, n.ip)
-	if n.ip6 != "" {
-		n.prov.ip6 = net.ParseIP(n.ip6)
-	}
+	n.prov = n.rig.eth.provider(n.name, n.ip, n.ip6)
 	n.rig.pmu.Lock()
 	n.rig.provBySKI[n.ski] = n.prov
 	n.rig.pmu.Unlock()
